@@ -20,7 +20,7 @@ RULE = (
 )
 ASSUMPTIONS = list(c09.ASSUMPTIONS) + ['thread counts are set through the Nthread argument (numba.set_num_threads inside the kernels); NUMBA_NUM_THREADS=16']
 EXHAUSTIVE_NOTE = {
-    'quick': 'fast_concatenate(N1,N2,t) and _searchsorted_parallel for all N1,N2 in 0..16, t in 1..16 vs numpy.concatenate / numpy.searchsorted',
+    'quick': 'fast_concatenate(N1,N2,t) and _searchsorted_parallel for all N1,N2 in 0..16, t in {1,2,3,5,8,16} vs numpy.concatenate / numpy.searchsorted',
     'thorough': 'fast_concatenate(N1,N2,t) and _searchsorted_parallel for all N1,N2 in 0..40, t in 1..16 vs numpy.concatenate / numpy.searchsorted',
 }
 
@@ -66,7 +66,7 @@ def exhaustive(tier, shard, nshards):
         k += 1
         if k % nshards != shard:
             continue
-        yield {'mode': 'concat', 'n1': n1, 'nmax': nmax}
+        yield {'mode': 'concat', 'n1': n1, 'nmax': nmax, 'ts': [1, 2, 3, 5, 8, 16] if tier == 'quick' else list(range(1, 17))}
     for n1 in range(0, nmax + 1, 4):
         k += 1
         if k % nshards != shard:
@@ -91,7 +91,7 @@ def _run_helpers(d):
                 a = (np.arange(n1) * 3 + 1).astype(dt)
                 b = (-(np.arange(n2) * 5) - 2).astype(dt)
                 want = np.concatenate([a, b])
-                for t in range(1, 17):
+                for t in d.get('ts', range(1, 17)):
                     got = call_repo(fast_concatenate, a.copy(), b.copy(), t)
                     _stats['helper_calls'] += 1
                     if got.shape != want.shape or not np.array_equal(got, want):
